@@ -12,6 +12,10 @@ CLAIMED = {
             "runtime monitor: real Provisioner.Schedule on generated worlds; every placement judged by an independent admissibility oracle (upstream nodeaffinity/toleration/pod-request code + first-principles host ports and sums) on every concrete node each launch option can become",
             "Thousands of generated worlds (catalogs with unavailable / overridden / reserved offerings, NodePools over all operators, daemonsets, managed nodes grown through the real provision→launch→register→initialize pipeline, unmanaged and deleting nodes) x pod batches x {preference policy, minValues policy, parallelism, ReservedCapacity}; each placement on an existing node is checked against provider/API ground truth, each new NodeClaim against every instance-type option x available compatible offering x concrete label assignment. Held-on-observed.",
             "Trusts the oracle (upstream k8s matchers, 300 lines of first-principles checks), the fake API server and the hostile provider. Volume limits / PV zones are not generated yet. One recorded finding (unsatisfiable conjunction represented as DoesNotExist)."),
+    "C13": ("exploration", "DESIGN.md §3 C13",
+            "runtime monitor: NodeClaim objects captured at the API boundary (interceptor) compared key-by-key over a probe universe with the scheduler's in-memory requirements; NodePools pre-filtered by the real in-process CRD schema + CEL + RuntimeValidate pipeline; panics recovered per Create",
+            "NodePool requirements are redrawn over all eight operators with several requirements per key (well-known enumerated / integer and custom keys, incl. Lt 0, Gt+NotIn, Gte+Lte), kept only if a real API server would accept them, and pushed through the real Solve → Truncate → Provisioner.Create path; for every created NodeClaim the serialized requirements, instance-type list, minValues floors, resource requests, labels, taints and hash annotations are judged against the in-memory decision and the template. Held-on-observed; two genuine defects found and fixed.",
+            "Trusts the plain operator semantics in world.AdmitsSerialized, the probe universe (mentioned values, integers around bounds, fresh string), the apiextensions-apiserver validation libraries and the fake API server."),
     "C20": ("exploration", "DESIGN.md §3 C20",
             "runtime monitor: real nodepoolhealth.State vs reference window (exhaustive bounded sequences + random), porcupine linearizability on concurrent histories, race detector, end-to-end condition monitor on the real lifecycle controllers",
             "Every operation sequence over {success, failure, reset, rehydrate-healthy, rehydrate-unhealthy} up to length 8 (quick) / 10 (thorough) is executed against the real tracker and compared step by step with a 4-slot reference window, including the what-if (DryRun) agreement; long random sequences, concurrent histories (porcupine + -race) and end-to-end runs through the real registration/liveness code extend this. Held-on-observed, exhaustive for the bounded sequence space only.",
